@@ -27,7 +27,7 @@ pub fn owner(op: &Op) -> Option<&'static str> {
         Tab | SetTabStop | Tbc(_) => "C18",
         SetTitle(_) | SetIconName(_) => "C19",
         DefineCharset(..) | ShiftOut | ShiftIn => "C20",
-        Bell | Da(_) | AlignmentDisplay | Feed(..) | FeedBytes(..) => return None,
+        Bell | Da(_) | AlignmentDisplay | ClearDirty | Feed(..) | FeedBytes(..) => return None,
     })
 }
 
